@@ -1271,4 +1271,18 @@ mod tests;
 /// crate-private items so an external harness can call them directly.
 #[cfg(rten_verif)]
 #[doc(hidden)]
-pub mod verif {}
+pub mod verif {
+    // --- C17: int8 kernel selection (b-C17) ---
+    /// One `GemmExecutor<u8, i8, i32>` per int8 kernel supported on this
+    /// system (same enumeration the crate's own tests use), paired with the
+    /// kernel's name.
+    pub fn int8_gemm_executors() -> Vec<(String, crate::GemmExecutor<u8, i8, i32>)> {
+        use crate::WithKernel;
+        crate::GemmExecutor::<u8, i8, i32>::kernel_types()
+            .into_iter()
+            .filter_map(crate::GemmExecutor::<u8, i8, i32>::with_kernel)
+            .map(|g| (g.kernel_name().to_string(), g))
+            .collect()
+    }
+    // --- end C17 ---
+}
